@@ -1,6 +1,7 @@
 import EosProofs.Lemmas.MicroLegal
 import EosProofs.Lemmas.MicroAssembly
 import EosProofs.Lemmas.MicroExec
+import EosProofs.Lemmas.MicroTeardown
 /-! # C01, layer 2 — the message handlers of the calculation service keep the attribute cache coherent
 
 `EosProofs/Props/C01.lean` (layer 1) shows that *any* history of reads and mutations whose removal sets are
@@ -22,8 +23,13 @@ Hypotheses and where they are used:
 * `StaticAt` before and after the step (`StaticAround`) — third clause of `Legal` (absence of a dependency's
   value is stable) for load / unload / start / stop / apply / unapply;
 * K1 side conditions (`StepOK`: the loaded / unloaded item is not a recorded projection target) — load, unload;
-* no hypothesis about buffs appears because the message-level model has no fleet-boost re-registration at
-  all (`WorldMicro.lean` header): the theorems are about universes used without warfare-buff effects;
+* no hypothesis about buffs: the warfare-buff modifiers of a fleet-boost effect are message payload
+  (`Dyn.bspecs`, replaced by `MStep.buffset`, whose side condition in `StepOK` is that the projector has no
+  recorded targets at that moment), and `projMods` ignores payload that is not an instance of one of the
+  universe's buff templates (`bspecOK`), so ranks grow along `rdeps` in every dynamic state.  Everything up to
+  `micro_incremental_eq_scratch` holds for universes *with* warfare-buff effects (`micro_rebuff_legal` and the
+  example after it run one); only the join to the from-scratch table (`world_read_eq_table`) assumes there
+  are none;
 * acyclicity of `deps` (`hacyc`) is *not* used here; it is a field of the graphs `W c`. -/
 namespace Eos.C01World
 open Eos.World Eos.Micro Eos.Micro.L Eos.DepCache Eos.Machine
@@ -53,8 +59,8 @@ theorem cascade_closed (cfg : Config) (d : Dyn) (hwf : rankWF u = true) (hun : U
 hypothesis of C01's layer 1): the new registers together with the set of entries the handler removes, and
 the handler does nothing to the cache but remove that set.
 Uses: `Ties`; `rankWF`, `UniqueAttrs` (cascade fuel); `ResistWF` and the `MInv` fields (coverage);
-`StepOK` (K1 for load / unload, no recorded targets for start / stop, the stated invisibility for reconfig);
-`StaticAround` (load, unload, start, stop, apply, unapply only). -/
+`StepOK` (K1 for load / unload, no recorded targets for start / stop / buffset, the stated invisibility for
+reconfig); `StaticAround` (load, unload, start, stop, apply, unapply only). -/
 theorem micro_step_legal (T : Ties u immune limited pen keep W) (hwf : rankWF u = true) (hun : UniqueAttrs u)
     (hR : ResistWF u) {s : MState} (inv : MInv W s) (st : MStep) (ok : StepOK W s st)
     (hsa : StaticAround u W s st) :
@@ -236,7 +242,8 @@ registers equal, the table's look-up function equal to the model's cache: `tblFu
 as well, provided the registers mention only configured items and effects of their types (`DynFin`: true of the
 empty registers the driver starts from, and of every output of `compactDyn`) and the message does (`StepFin`:
 `ItemLoaded` of a configured item, `EffectsStarted` of effects of the item's type, `EffectApplied` of such an
-effect; a new configuration still contains what the registers mention); `DynFin` is kept. -/
+effect, warfare-buff modifiers registered for such an effect; a new configuration still contains what the
+registers mention); `DynFin` is kept. -/
 theorem driver_step_refines (s : TState) (st : MStep) :
     (mstepT u s st).toM = mstep u s.toM st ∧
     (DynFin u s.cfg s.dyn → StepFin u s.cfg s.dyn st →
@@ -254,8 +261,10 @@ registers. -/
 theorem driver_compact_id (cfg : Config) (d : Dyn) {x : Item} (hx : x ∈ cfg.items) :
     (compactDyn u cfg d).loaded x.id = d.loaded x.id ∧
     ∀ e ∈ effsOf u x, (compactDyn u cfg d).on x.id e = d.on x.id e ∧
-      (compactDyn u cfg d).tgts x.id e = d.tgts x.id e :=
-  ⟨compactDyn_loaded_of_mem hx, fun _ he => ⟨compactDyn_on_of_mem hx he, compactDyn_tgts_of_mem hx he⟩⟩
+      (compactDyn u cfg d).tgts x.id e = d.tgts x.id e ∧
+      (compactDyn u cfg d).bspecs x.id e = d.bspecs x.id e :=
+  ⟨compactDyn_loaded_of_mem hx, fun _ he =>
+    ⟨compactDyn_on_of_mem hx he, compactDyn_tgts_of_mem hx he, compactDyn_bspecs_of_mem hx he⟩⟩
 
 /-- **What a public read of the driver returns is the from-scratch value.**  State satisfying the invariant
 `MInv` (cache coherent and dependency-closed for `worldGraph`, unique item ids, …), rank-well-formed universe,
@@ -325,7 +334,8 @@ example : DynFin tinyU tinyS.cfg tinyS.dyn ∧ StepFin tinyU tinyS.cfg tinyS.dyn
     tblFun [((0, 2), (7 : Rat))] (0, 2) = some 7 ∧
     tblFun (mdoT tinyU ⟨tinyS.cfg, tinyS.dyn, [((0, 2), 7)]⟩ (.start 0 [100])).tbl (0, 2) = none := by
   have hD : DynFin tinyU tinyS.cfg tinyS.dyn := by
-    refine ⟨fun i h => ⟨_, List.mem_cons_self, ?_⟩, fun i e h => (by cases h), fun i e h => absurd rfl h⟩
+    refine ⟨fun i h => ⟨_, List.mem_cons_self, ?_⟩, fun i e h => (by cases h), fun i e h => absurd rfl h,
+      fun i e h => absurd rfl h⟩
     have : i = 0 := by simpa [tinyS] using h
     exact this.symm
   have hS : StepFin tinyU tinyS.cfg tinyS.dyn (.start 0 [100]) := by
@@ -360,5 +370,147 @@ example : (readStepT settleU specImmune specLimited (fun _ => 1) ⟨settleCfg, s
   have he := (running_mem (specsOn_mem hsp).2.1).1
   simp only [settleU, List.mem_cons, List.not_mem_nil, or_false] at he
   rcases he with he | he <;> rw [he] at hr <;> cases hr
+
+/-! ## Fleet boosts at message level -/
+
+/-- **Fleet boosts: (re-)registration of warfare buffs is a legal history.**  When a fleet-boost effect `e` of
+item `i` starts, or one of its buff attributes changes, the service un-applies the effect from its recorded
+targets, rebuilds its warfare-buff modifiers (`buffset`: message payload `ms`, whatever it is) and applies
+the effect to the ships `ts` of the fleet (`rebuff`).  From any state satisfying the invariant these three
+messages are taken under their side conditions — the `buffset` finds no recorded targets because of the
+un-apply before it; the hypotheses are those of the `EffectApplied` (targets are solar-system items) and
+non-zero divisors around the un-apply and the apply — the invariant holds afterwards, the projector has
+exactly the new modifiers and targets registered, and every read returns the from-scratch value of the new
+registers.  No hypothesis excludes buff effects from the universe. -/
+theorem micro_rebuff_legal (T : Ties u immune limited pen keep W) (hwf : rankWF u = true) (hun : UniqueAttrs u)
+    (hR : ResistWF u) {s : MState} (inv : MInv W s) (i : Nat) (e : Int) (ms : List Modifier) (ts : List Nat)
+    (hts : ∀ j ∈ ts, ∀ t, item? s.cfg j = some t → t.kind.isSolsys = true)
+    (hst1 : StaticAround u W s (.unapply i e (s.dyn.tgts i e)))
+    (hst3 : StaticAround u W (rebuffMid u s i e ms) (.apply i e ts)) :
+    WRunOK u W s ((rebuff s i e ms ts).map .micro) ∧
+    MInv W (wrun u W s ((rebuff s i e ms ts).map .micro)) ∧
+    (wrun u W s ((rebuff s i e ms ts).map .micro)).dyn.bspecs i e = ms ∧
+    (wrun u W s ((rebuff s i e ms ts).map .micro)).dyn.tgts i e = ts ∧
+    ∀ n, observe W (toState (wrun u W s ((rebuff s i e ms ts).map .micro))) n =
+      spec (W ((wrun u W s ((rebuff s i e ms ts).map .micro)).cfg,
+        (wrun u W s ((rebuff s i e ms ts).map .micro)).dyn)) n :=
+  have hinv := rebuff_inv T ((rankWF_iff u).1 hwf) hun hR inv i e ms ts hts hst1 hst3
+  have hd := rebuff_dyn (u := u) (W := W) s i e ms ts
+  ⟨rebuff_ok s i e ms ts hts hst1 hst3, hinv, hd.2.2.2.1, hd.2.2.2.2.1, fun n => observe_eq_spec W _ hinv.good n⟩
+
+/-! ### Non-vacuity: a history with a running fleet boost
+
+`buffU` has a warfare-buff effect (2000, `isBuff := true`, no modifiers of its own) on a module type and one buff
+template (buff 10: +value % on attribute 37 of the boosted ship).  History `buffHist`: the effect starts; the
+ship's attribute 37 is read (100, cached); the service registers the buff — un-apply from no targets,
+`buffset` with the one modifier built from the template (source: buff value attribute 2469 = 25 of the
+module), apply to the ship —, which removes the cached entry; the next read returns 125. -/
+
+def buffU : Universe :=
+  { attrs := [⟨2469, none, none, true, true⟩, ⟨37, none, none, true, true⟩],
+    effects := [⟨2000, 1, none, none, true, []⟩],
+    types := [⟨1, none, some 6, none, [(37, 100)], [], []⟩, ⟨2, none, some 7, none, [(2469, 25)], [2000], []⟩],
+    buffs := [⟨10, 1, none, 37, 9, 1⟩] }
+def buffShip : Item := ⟨1, .ship, 1, 0, 1, none, none, none, []⟩
+def buffCfg : Config :=
+  { hasSource := true, fits := [⟨0, some 1, none, none⟩],
+    items := [buffShip, ⟨2, .moduleHigh, 2, 0, 3, none, none, none, []⟩] }
+def buffD0 : Dyn := { loaded := fun i => i == 1 || i == 2, on := fun _ _ => false, tgts := fun _ _ => [] }
+def buffS0 : MState := ⟨buffCfg, buffD0, fun _ => none⟩
+def buffMod : Modifier := ⟨1, 4, none, 37, 9, 1, some 10, 2469⟩
+abbrev buffW : Config × Dyn → Graph Node Rat := worldGraph buffU specImmune specLimited (fun _ => 1) (by decide)
+def buffHist : List WStep :=
+  [.micro (.start 2 [2000]), .read fun n => n == (1, 37),
+   .micro (.unapply 2 2000 []), .micro (.buffset 2 2000 [buffMod]), .micro (.apply 2 2000 [1]),
+   .read fun n => n == (1, 37) || n == (2, 2469)]
+
+/-- The payload is an instance of the template (`projMods` ignores anything else), and the middle of the
+history is the `rebuff` of the theorem above. -/
+example : bspecOK buffU buffMod = true := by decide
+example : buffHist = [.micro (.start 2 [2000]), .read fun n => n == (1, 37)] ++
+    (rebuff (wrun buffU buffW buffS0 (buffHist.take 2)) 2 2000 [buffMod] [1]).map .micro ++
+    [.read fun n => n == (1, 37) || n == (2, 2469)] := rfl
+
+theorem buff_wf : rankWF buffU = true ∧ UniqueAttrs buffU ∧ ResistWF buffU ∧ UniqueIds buffCfg ∧
+    ChargeWF buffCfg ∧ TgtKinds buffCfg buffD0 := by
+  refine ⟨by decide, by unfold UniqueAttrs; decide, ?_, by unfold UniqueIds; decide, ?_, ?_⟩
+  · intro e he r hr
+    simp only [buffU, List.mem_singleton] at he
+    subst he; cases hr
+  · intro x hx hk
+    simp only [buffCfg, buffShip, List.mem_cons, List.not_mem_nil, or_false] at hx
+    rcases hx with rfl | rfl <;> cases hk
+  · intro a e t ht
+    simp [targetsOf, buffD0] at ht
+
+/-- Both reads of the history fill dependency-closed sets: before the boost is applied `(ship, 37)` reads
+nothing, afterwards it reads the booster's buff value attribute `(module, 2469)`. -/
+theorem buff_readLegal (k : Nat) (s : MState) (hc : s.cfg = buffCfg)
+    (hd : s.dyn = (wrun buffU buffW buffS0 (buffHist.take k)).dyn) (S : Node → Bool)
+    (hS : (k = 1 ∧ S = fun n => n == (1, 37)) ∨ (k = 5 ∧ S = fun n => n == (1, 37) || n == (2, 2469))) :
+    Legal buffW (toState s) (.read S) := by
+  intro n hn m hm _
+  have : (toState s).cfg = (buffCfg, (wrun buffU buffW buffS0 (buffHist.take k)).dyn) := by
+    show (s.cfg, s.dyn) = _; rw [hc, hd]
+  rw [this] at hm
+  rcases hS with ⟨rfl, rfl⟩ | ⟨rfl, rfl⟩
+  · have hn' : n = (1, 37) := by simpa using hn
+    subst hn'
+    have : (buffW (buffCfg, (wrun buffU buffW buffS0 (buffHist.take 1)).dyn)).deps (1, 37) = [] := by
+      decide +kernel
+    rw [this] at hm; cases hm
+  · have hdeps : ∀ n, (n == ((1 : Nat), (37 : Int)) || n == (2, 2469)) = true →
+        ∀ m ∈ (buffW (buffCfg, (wrun buffU buffW buffS0 (buffHist.take 5)).dyn)).deps n, m = (2, 2469) := by
+      intro n hn
+      simp only [Bool.or_eq_true, beq_iff_eq] at hn
+      rcases hn with rfl | rfl <;> decide +kernel
+    left
+    rw [hdeps n hn m hm]; rfl
+
+/-- Every event of the history is taken under its side conditions. -/
+theorem buff_runOK : WRunOKE buffU specImmune specLimited (fun _ => 1) buffW buffS0 buffHist := by
+  refine ⟨⟨?_, fun _ => ⟨?_, ?_⟩⟩, ?_, ⟨trivial, fun _ => ⟨?_, ?_⟩⟩, ⟨?_, fun h => by cases h⟩,
+    ⟨?_, fun _ => ⟨?_, ?_⟩⟩, ?_, trivial⟩
+  · intro e _; rfl
+  all_goals first
+    | exact buff_readLegal 1 _ rfl rfl _ (Or.inl ⟨rfl, rfl⟩)
+    | exact buff_readLegal 5 _ rfl rfl _ (Or.inr ⟨rfl, rfl⟩)
+    | (unfold ErrorFree; decide +kernel)
+    | rfl
+    | (intro j hj t ht
+       rw [List.mem_singleton.1 hj] at ht
+       cases ht; rfl)
+
+/-- The history satisfies the hypotheses of `micro_inv_run` for a universe with a buff effect; the entry
+cached before the boost (100) is removed by the `EffectApplied`, and the read after it caches 125. -/
+example : (∃ e ∈ buffU.effects, e.isBuff = true) ∧
+    MInv buffW (wrun buffU buffW buffS0 buffHist) ∧
+    (wrun buffU buffW buffS0 (buffHist.take 2)).cache (1, 37) = some 100 ∧
+    (wrun buffU buffW buffS0 (buffHist.take 5)).cache (1, 37) = none ∧
+    (wrun buffU buffW buffS0 buffHist).cache (1, 37) = some 125 ∧
+    (wrun buffU buffW buffS0 buffHist).dyn.bspecs 2 2000 = [buffMod] ∧
+    (wrun buffU buffW buffS0 buffHist).dyn.tgts 2 2000 = [1] := by
+  have T := worldGraph_ties (u := buffU) (immune := specImmune) (limited := specLimited) (pen := fun _ => 1)
+    (by decide)
+  obtain ⟨hwf, hun, hR, hU, hC, hT⟩ := buff_wf
+  have ok := wrunOK_of_errorFree T _ _ buff_runOK
+  have ok5 : WRunOK buffU buffW buffS0 (buffHist.take 5) :=
+    ⟨ok.1, ok.2.1, ok.2.2.1, ok.2.2.2.1, ok.2.2.2.2.1, trivial⟩
+  refine ⟨by decide, micro_inv_run T hwf hun hR hU hC hT _ ok, by decide +kernel, ?_, by decide +kernel, by decide +kernel,
+    by decide +kernel⟩
+  -- the `EffectApplied` removed the entry: it only removes entries, and a surviving `100` would contradict
+  -- coherence with the from-scratch value `125` of the new registers
+  have inv5 := micro_inv_run T hwf hun hR hU hC hT _ ok5
+  have hspec : spec (buffW ((wrun buffU buffW buffS0 (buffHist.take 5)).cfg,
+      (wrun buffU buffW buffS0 (buffHist.take 5)).dyn)) (1, 37) = some 125 := by decide +kernel
+  have sub : Cascade.Sub (wrun buffU buffW buffS0 (buffHist.take 2)).cache
+      (wrun buffU buffW buffS0 (buffHist.take 5)).cache :=
+    ((mstep_sub (u := buffU) (wrun buffU buffW buffS0 (buffHist.take 2)) (.unapply 2 2000 [])).trans
+      (mstep_sub (u := buffU) _ (.buffset 2 2000 [buffMod]))).trans (mstep_sub (u := buffU) _ (.apply 2 2000 [1]))
+  rcases sub (1, 37) with h | h
+  · exact h
+  · have h100 : (wrun buffU buffW buffS0 (buffHist.take 2)).cache (1, 37) = some 100 := by decide +kernel
+    have := (inv5.good.coh (1, 37) 100 (h.trans h100)).symm.trans hspec
+    exact absurd this (by decide +kernel)
 
 end Eos.C01World
